@@ -1,3 +1,4 @@
+import PydapModel.DasText
 import PydapModel.DdsForeign
 import PydapModel.DdsText
 import PydapModel.Generated.Tables
